@@ -119,7 +119,7 @@ AxisFn = tp.Callable[
 
 
 def _update_variable_sharding_metadata(
-    tree, transform_metadata, axis_fn: AxisFn
+    tree, transform_metadata, axis_fn: AxisFn, *, vectorized_only: bool = False
 ):
   def _update_axes_fn(node_states):
     if isinstance(node_states, extract.NodeStates) and isinstance(
@@ -132,7 +132,13 @@ def _update_variable_sharding_metadata(
         return node_states.replace(states=(state,))
       else:
         states_out: list[graph.GraphState | variablelib.VariableState] = []
-        for state, axis in zip(node_states.states, node_states.metadata.axes):
+        axes = node_states.metadata.axes
+        if vectorized_only:
+          # scan only keeps the states with an integer axis in NodeStates
+          axes = tuple(axis for axis in axes if isinstance(axis, int))
+          if not axes:
+            return node_states
+        for state, axis in zip(node_states.states, axes):
           assert isinstance(state, graph.State | variablelib.VariableState)
           if isinstance(axis, int):
             state = axis_fn(state, axis, transform_metadata)
@@ -1006,7 +1012,10 @@ class ScanFn:
 
     if spmd.PARTITION_NAME in self.transform_metadata:
       pure_args = _update_variable_sharding_metadata(
-          pure_args, self.transform_metadata, spmd.remove_axis
+          pure_args,
+          self.transform_metadata,
+          spmd.remove_axis,
+          vectorized_only=True,
       )
 
     args: tuple = extract.from_tree(
@@ -1083,6 +1092,7 @@ class ScanFn:
         (pure_args_out, pure_out),
         self.transform_metadata,
         spmd.add_axis,
+        vectorized_only=True,
       )
 
     # extract the pure carry from the pure args
